@@ -134,6 +134,14 @@ CHECKS = {
         "text": "Every sequence of up to 3 (quick) / 4 (thorough) calls from {start, schedule, unschedule, unschedule_all, stop} x three emitter kinds runs under the default schedule; eight two-thread programs (with re-entrant calls from callbacks and a root that disappears) get every schedule with <= 1/2 preemptions at line granularity; random programs get random schedules. Each run ends with stop(); join() on main. A state with no runnable thread and no timed waiter while a thread is unfinished is a deadlock; an exhausted step budget a livelock; any library thread (observer, emitter, InotifyBuffer reader) alive after quiescence a leak; an uncaught exception in a library thread is reported too.",
         "note": "Trusted: vlib/dsched, vlib/simkernel.py (validated against the real kernel in setup), vlib/vfs.py. Calls may raise; the final stop()+join() is part of every program, so a schedule() issued after an earlier stop() is cleaned up by the final stop().",
     },
+    "C12": {
+        "engine": "fsops+dsched",
+        "category": "fault_enumeration",
+        "design_ref": "DESIGN.md §4 C12",
+        "technique": "property-based testing with fault enumeration: (a) model-based cycles against the real kernel counting /proc/self/fd and library threads, (b) generated schedules of close() vs the reader on a simulated kernel that flags any use of a closed descriptor, (c) a failure injected at every kernel call of watch construction",
+        "text": "(a) Generated sequences of schedule (existing tree / missing path / equal watch) / unschedule / start / stop+join / new observer / deletion of a watched root run against the real kernel; after every step the descriptor and library-thread counts must equal the model (3 descriptors + 2 threads per started watch, 1 thread per running observer). (b) Inotify + InotifyBuffer with reader, consumer, event source and a closer run under every schedule with <= 1/2 preemptions at line granularity of inotify_c.py/inotify_buffer.py (plus random programs and schedules): all three descriptors closed exactly once, no read/poll/write/close on a closed number. (c) For trees of 1-6 directories inotify_init and every inotify_add_watch fail in turn with ENOENT/ENOSPC/EMFILE/EACCES: the call raises or succeeds and no descriptor stays open without owner; after stop()+join() none is open.",
+        "note": "Trusted: /proc/self/fd as descriptor count, vlib/simkernel.py (validated against the real kernel in setup), vlib/dsched. inotify_add_watch/rm_watch on a closed descriptor is logged, not judged.",
+    },
 }
 
 ALL = [f"C{i:02d}" for i in range(1, 21)]
